@@ -123,3 +123,30 @@ def variants(nctg, npieces):
     for cs in itertools.product((1, -1), repeat=nctg):
         for ps in itertools.product((1, -1), repeat=npieces):
             yield cs, ps
+
+
+def replay_model(cond, args, kwargs):
+    """re-execute the harness on the unmodified code, through real AGP text for
+    the input and the Pretext map (with the HiC MAP RESOLUTION header and a real
+    texel width on whose grid the cut positions lie, when one exists)"""
+    import traceback
+    ns = {"__name__": "replay_harness"}
+    exec(compile(cond.src, "<harness>", "exec"), ns)
+    fn = ns[cond.fn]
+    try:
+        r = fn(*args, **kwargs)
+        out = {"reproduced": not bool(r), "observed": f"returned {r!r}"}
+    except Exception as e:  # noqa: BLE001
+        out = {"reproduced": True, "observed": f"raised {type(e).__name__}: {str(e)[:400]}", "traceback": traceback.format_exc()[-1200:]}
+    last = ns.get("LAST", {})
+    out["texel"] = str(last.get("grid_t"))
+    out["pretext_agp"] = ns["REPLAY_TEXT"].get("pretext_agp")
+    if last.get("outs") is not None:
+        out["outputs"] = ns["describe_outs"](last["outs"])
+    out["input"] = [(sp[0], sp[1], list(sp[2]), list(sp[3]) if len(sp) > 3 else None) for sp in last.get("specs", [])]
+    if out["reproduced"] and last.get("model") and last.get("grid_t") is None:
+        out["spurious"] = "cut positions / scaffold ends do not lie on any texel grid with floor(t) = tf: not a map PretextView can produce (integer over-approximation of DESIGN section 4)"
+        out["reproduced"] = False
+    return out
+
+
